@@ -24,6 +24,8 @@ structure World where
   tick : Nat := 0
   /-- operation indices (values of `tick`) that fail. -/
   faults : List Nat := []
+  /-- ghost counter (not observable, used by the C09 theorems only): failed revision writes so far. -/
+  wfails : Nat := 0
 deriving Repr, Inhabited
 
 /-- outcome of one `Execute`. -/
@@ -52,7 +54,7 @@ def findRev (v : String) (revs : List Revision) : Option Revision := revs.find? 
 /-- `e.writeRevision`: `true` = failed with WriteRevisionError. -/
 def writeRevision (w : World) (r : Revision) : World × Bool :=
   let (w, fail) := w.op
-  if fail then (w, true) else ({ w with revs := upsert r w.revs }, false)
+  if fail then ({ w with wfails := w.wfails + 1 }, true) else ({ w with revs := upsert r w.revs }, false)
 
 /-- `sums[i]` of `Execute`: cumulative hash of the statement texts. -/
 def sums (H : Text → String) (stmts : List Text) : List String :=
@@ -76,20 +78,28 @@ def checkLoop (fixed : Bool) (sums partials : List String) (applied : Nat) :
       else checkLoop fixed sums partials applied fuel (i + 1)
     else none
 
+/-- `e.drv.ExecContext(ctx, stmt.Text)`: the call is always seen, the effect only on success;
+`true` = the statement failed. -/
+def execStmt (w : World) (s : Text) : World × Bool :=
+  let (w, fail) := w.op
+  let w := { w with calls := w.calls ++ [s] }
+  if fail then (w, true) else ({ w with journal := w.journal ++ [s] }, false)
+
+/-- the bookkeeping after a successful statement: record its hash, count it, clear a stale error. -/
+def bump (sums : List String) (r : Revision) : Revision :=
+  { r with partialHashes := r.partialHashes ++ [sums[r.applied]?.getD ""],
+           applied := r.applied + 1, error := "", errorStmt := [] }
+
 /-- The statement loop `for _, stmt := range stmts[r.Applied:]`. -/
 def stmtLoop (sums : List String) : List Text → World → Revision → World × Revision × Res
   | [], w, r => (w, r, .ok)
   | s :: rest, w, r =>
-    let (w, fail) := w.op
-    let w := { w with calls := w.calls ++ [s] }
-    if fail then
-      (w, { r with errorStmt := s, error := "exec" }, .stmt false)
-    else
-      let w := { w with journal := w.journal ++ [s] }
-      let r := { r with partialHashes := r.partialHashes ++ [sums[r.applied]?.getD ""],
-                        applied := r.applied + 1, error := "", errorStmt := [] }
-      let (w, wfail) := writeRevision w r
-      if wfail then (w, r, .writeRev) else stmtLoop sums rest w r
+    match execStmt w s with
+    | (w, true) => (w, { r with errorStmt := s, error := "exec" }, .stmt false)
+    | (w, false) =>
+      match writeRevision w (bump sums r) with
+      | (w, true) => (w, bump sums r, .writeRev)
+      | (w, false) => stmtLoop sums rest w (bump sums r)
 
 /-- the deferred `writeRevision` of `Execute` for results that are not a WriteRevisionError. -/
 def deferred (w : World) (r : Revision) (res : Res) : World × Res :=
@@ -100,26 +110,40 @@ def deferred (w : World) (r : Revision) (res : Res) : World × Res :=
   | .stmt _ => let (w, f) := writeRevision w r; (w, .stmt f)
   | .historyChanged i _ => let (w, f) := writeRevision w r; (w, .historyChanged i f)
 
-/-- `(*Executor).Execute`. -/
-def execute (fixed : Bool) (H : Text → String) (w : World) (m : MFile) : World × Res :=
-  let sm := sums H m.stmts
-  let r : Revision := match findRev m.version w.revs with
-    | some r => r
-    | none => { version := m.version, desc := m.desc, typ := 2, total := m.stmts.length, hash := m.hash }
-  let (w, f) := writeRevision w r
-  if f then (w, .writeRev) else
-  match (if r.applied > 0 then checkLoop fixed sm r.partialHashes r.applied (r.applied + 1) 0 else none) with
+/-- `e.rrw.ReadRevision(version)` or, if it does not exist, the fresh revision `Execute` creates. -/
+def loadRev (w : World) (m : MFile) : Revision :=
+  match findRev m.version w.revs with
+  | some r => r
+  | none => { version := m.version, desc := m.desc, typ := 2, total := m.stmts.length, hash := m.hash }
+
+/-- `Execute` from the statement loop on (hash check passed): the slice `stmts[r.Applied:]`, the
+loop, and the deferred final write. -/
+def runStmts (fixed : Bool) (H : Text → String) (w : World) (m : MFile) (r : Revision) : World × Res :=
+  if r.applied > m.stmts.length then (w, .panic)      -- stmts[r.Applied:] out of range
+  else
+    -- second repair: `r.Total = len(stmts)` once the applied prefix is known to be unchanged
+    let r := if fixed then { r with total := m.stmts.length } else r
+    match stmtLoop (sums H m.stmts) (m.stmts.drop r.applied) w r with
+    | (w, r, .ok) => deferred w { r with partialHashes := [] } .ok
+    | (w, r, res) => deferred w r res
+
+/-- `Execute` after the "mark as started" write succeeded: the hash check of the applied part. -/
+def afterStart (fixed : Bool) (H : Text → String) (w : World) (m : MFile) (r : Revision) : World × Res :=
+  match (if r.applied > 0 then checkLoop fixed (sums H m.stmts) r.partialHashes r.applied (r.applied + 1) 0
+         else none) with
   | some (.inr ()) => (w, .panic)
   | some (.inl i) => deferred w r (.historyChanged (i + 1) false)
-  | none =>
-    if r.applied > m.stmts.length then (w, .panic)      -- stmts[r.Applied:] out of range
-    else
-      -- second repair: `r.Total = len(stmts)` once the applied prefix is known to be unchanged
-      let r := if fixed then { r with total := m.stmts.length } else r
-      let (w, r, res) := stmtLoop sm (m.stmts.drop r.applied) w r
-      match res with
-      | .ok => deferred w { r with partialHashes := [] } .ok
-      | res => deferred w r res
+  | none => runStmts fixed H w m r
+
+/-- `(*Executor).Execute` from the point where the revision `r` is in hand. -/
+def executeFrom (fixed : Bool) (H : Text → String) (w : World) (m : MFile) (r : Revision) : World × Res :=
+  match writeRevision w r with
+  | (w, true) => (w, .writeRev)
+  | (w, false) => afterStart fixed H w m r
+
+/-- `(*Executor).Execute`. -/
+def execute (fixed : Bool) (H : Text → String) (w : World) (m : MFile) : World × Res :=
+  executeFrom fixed H w m (loadRev w m)
 
 /-- `(*Executor).exec`: files in order, stop at the first error. -/
 def execFiles (fixed : Bool) (H : Text → String) : List MFile → World → World × Res
